@@ -771,12 +771,20 @@ def lfilter(src, mask):
     if not z3.eq(mask.N, src.N):
         raise Unsupported("mask of a different length")
     m = mask.rebase(src.N, src.idx)
+    mt = core.tobool(symnp._tb(_plain(m.row)[()]))
+    # the same mask (same term over the same length) always yields the same filter map:
+    # a[mask] and b[mask] are aligned row by row
+    fkey = ("filter", z3.simplify(mt).sexpr(), src.N.sexpr(), src.idx.sexpr())
+    if fkey in c.memo:
+        N2, phi, psi, idx2 = c.memo[fkey]
+        row = _subst_row(src.row, src.idx, phi(idx2))
+        return LArr(N2, idx2, row, 0, src.ldt)
     k = len(c.memo.setdefault("filters", []))
     N2 = z3.Int("cnt!%d" % k)
     phi = z3.Function("phi!%d" % k, z3.IntSort(), z3.IntSort())
     psi = z3.Function("psi!%d" % k, z3.IntSort(), z3.IntSort())
     idx2 = index_for(N2)
-    mt = core.tobool(symnp._tb(_plain(m.row)[()]))
+    c.memo[fkey] = (N2, phi, psi, idx2)
     j = phi(idx2)
     c.axiom(z3.And(N2 >= 0, N2 <= src.N))
     c.axiom(z3.And(j >= 0, j < src.N, z3.substitute(mt, (src.idx, j)), psi(j) == idx2))
